@@ -49,7 +49,7 @@ def _lim(A_, P):
 
 @cond(bounds='acceptor: configured maximum A in [7, 2^32), requestor-announced P in {0} u [7, 2^32), then one message '
              'with command length C and data length L up to K fragments of the resulting limit - all symbolic',
-      timeout=180)
+      timeout=420)
 def acceptor_maxlen(A_: int, P: int, C: int, L: int, as_file: bool) -> bool:
     """
     pre: 7 <= A_ <= 0xFFFFFFFF and (P == 0 or 7 <= P <= 0xFFFFFFFF)
@@ -71,7 +71,7 @@ def acceptor_maxlen(A_: int, P: int, C: int, L: int, as_file: bool) -> bool:
 
 
 @cond(bounds='requestor: configured maximum A in [7, 2^32), acceptor-announced P in {0} u [7, 2^32), then one message as '
-             'above - all symbolic', timeout=180)
+             'above - all symbolic', timeout=420)
 def requester_maxlen(A_: int, P: int, C: int, L: int, as_file: bool) -> bool:
     """
     pre: 7 <= A_ <= 0xFFFFFFFF and (P == 0 or 7 <= P <= 0xFFFFFFFF)
